@@ -67,7 +67,7 @@ func (bv4pw binaryVector4PropertyWriter) Write(out io.Writer, i int) (err error)
 
 	switch bv4pw.format {
 	case UChar:
-		v4 := bv4pw.arr.At(i).Scale(255).RoundToInt()
+		v4 := bv4pw.arr.At(i).Clamp(0, 1).Scale(255).RoundToInt()
 		bv4pw.buf[0] = byte(v4.X())
 		bv4pw.buf[1] = byte(v4.Y())
 		bv4pw.buf[2] = byte(v4.Z())
